@@ -228,11 +228,12 @@ def _(c):
 # ---------------------------------------------------------------------------------------------
 
 def _grid_nummans(tier, rng):
-    """methods {rk4@30 s, dopri54@60 s, dopri54@300 s, rkf54@120 s} x frame tags {TNW, QSW, inertial} x maneuver dates {on the grid, off the grid}"""
+    """methods {rk4@30 s, dopri54@60 s, dopri54@300 s, rkf54@120 s} x frame tags {TNW, QSW, inertial} x maneuver dates {on the grid, off the grid}
+    x order of the maneuvers in the orbit's list {by date, latest first, neither}"""
     for m in range(4):
         for tag in range(3):
             for on in (0, 1):
-                yield {"method": m, "tag": tag, "ongrid": on}
+                yield {"method": m, "tag": tag, "ongrid": on, "order": (m + tag + on) % 3}
 
 
 @contract("C17", "num.maneuvers_native", funcs=["beyond.propagators.keplernum:KeplerNum._make_step", f"{MAN}:ImpulsiveMan.dv", f"{MAN}:ImpulsiveMan.check"],
@@ -258,7 +259,8 @@ def _(c):
     dvs = [np.array([1.5, 0.0, 0.0]), np.array([0.0, -2.0, 0.5]), np.array([-0.7, 0.3, 1.1])]
     mans = [ImpulsiveMan(d0 + timedelta(seconds=t), dv, frame=tag) for t, dv in zip(offs, dvs)]
     orb = Orbit(list(r0) + list(v0), d0, "cartesian", "EME2000", KeplerNum(timedelta(seconds=st), get_body("Earth"), method=method))
-    orb.maneuvers = mans
+    # the list an orbit carries is in whatever order the maneuvers were appended (a correction burn added afterwards comes last)
+    orb.maneuvers = [mans[j] for j in ([0, 1, 2], [2, 1, 0], [1, 2, 0])[c.integer("order")]]
     end = 3600.0
     res = np.asarray(orb.propagate(d0 + timedelta(seconds=end)), dtype=float)
 
